@@ -329,13 +329,26 @@ def read_event(prop, inst, concrete, engines=("numpy",), extra_kw=None, names="s
 
 def instances(ctx, family, maxr, maxc, maxd, big, workers=16, timeout=3000):
     cfg = ("SPECIFICATION Spec\nCONSTANTS\n  Family = \"%s\"\n  MaxR = %d\n  MaxC = %d\n  MaxD = %d\n  Big = %s\n  Emit = TRUE\n"
-           "CONSTRAINT EmitInst\nINVARIANT Legal\nINVARIANT Partition\nINVARIANT OnlyVandWsteer\nCHECK_DEADLOCK FALSE\n"
+           "CONSTRAINT EmitInst\nINVARIANT Legal\nINVARIANT Partition\nINVARIANT OnlyVandWsteer\nINVARIANT AlgoRefinesIntent\n"
+           "CHECK_DEADLOCK FALSE\n"
            % (family, maxr, maxc, maxd, "TRUE" if big else "FALSE"))
-    r = ctx.model_check("ReadInstances", cfg, label="ReadInstances family %s: LegalText, Partition, OnlyVandWsteer" % family,
+    r = ctx.model_check("ReadInstances", cfg, label="ReadInstances family %s: LegalText, Partition, OnlyVandWsteer, LasReadAlgo refines LasRead" % family,
                         workers=workers, timeout=timeout)
     insts = r.printed_json()
     insts.sort(key=lambda i: json.dumps(i, sort_keys=True))
     return insts
+
+
+def engine_drift(ctx, inst, ev, engine, meta=None):
+    """Algorithm layer vs implementation: which engine produced the data (LasReadAlgo!AlgoPath vs the LASIO_VERIF hook)."""
+    if engine != "numpy" or "path" not in inst or ev.get("exc") or not ev.get("fastpath"):
+        return
+    seen = ev["fastpath"][0]
+    if not seen:
+        return          # no data section was read
+    ctx.extra["engine_path_compared"] = ctx.extra.get("engine_path_compared", 0) + 1
+    if seen[0] != inst["path"]:
+        ctx.drift.append({"tag": inst.get("tag"), "model_path": inst["path"], "impl_path": seen})
 
 
 def judge(ctx, events, meta, fails):
